@@ -22,6 +22,8 @@ def main():
     ap.add_argument("--replay")
     ap.add_argument("--digests", type=int)
     ap.add_argument("--show", type=int, help="print history number N and its trace")
+    ap.add_argument("--shard", default="0/1")
+    ap.add_argument("--serve", action="store_true")
     a = ap.parse_args()
     seed = int(os.environ.get("VERIF_SEED", "0") or 0)
     from vsim import runner
@@ -29,11 +31,14 @@ def main():
     try:
         if a.replay:
             return runner.replay_file(a.replay)
+        if a.serve:
+            return runner.serve(a.property)
         if a.digests is not None:
             m = runner.load_machine(a.property)
             known = sorted(e["signature"] for e in runner.load_known(a.property)
                            if e["status"] == "known")
-            d = runner.compute_digests(m, a.tier, seed, a.digests, known)
+            sh = tuple(int(x) for x in a.shard.split("/"))
+            d = runner.compute_digests(m, a.tier, seed, a.digests, known, sh)
             print("DIGESTS " + json.dumps({str(k): v for k, v in d.items()}))
             return 0
         if a.show is not None:
